@@ -153,8 +153,12 @@ class FloatValidatorBase(FieldValidator[_P, float], Generic[_P, _C], metaclass=A
 
         # Note: This may not be worth it since this is a rare overflow case.
         try:
-            if math.isinf(self._ctype(max(value)).value) or math.isinf(
-                self._ctype(min(value)).value
+            # NaN compares false with everything and would hide an overflowing
+            # neighbour from max()/min(); it is representable itself, so leave it out.
+            finite = [v for v in value if v == v]
+            if finite and (
+                math.isinf(self._ctype(max(finite)).value)
+                or math.isinf(self._ctype(min(finite)).value)
             ):
                 raise ValueError(
                     f"{value} contains value(s) that can not be represented as a {type(self).__name__}"
